@@ -115,9 +115,14 @@ func c14Alphabet(r *gen.Rand, v *spec.Version) []string {
 		add("AV:L/AC:L/Au:M/C:N/I:N/A:N/E:H")
 		add("AV:L/AC:L/Au:M/C:N/I:N/A:N/E:H/RL:U")
 		add("AV:L/AC:L/Au:M/C:N/I:N/A:N/CDP:H/TD:H/CR:H/IR:H")
+		// elements after a complete environmental group (with and without a temporal group)
+		add(v.Canonical(e) + "/AR:L")
+		add(v.Canonical(e) + "/")
+		add(v.Canonical(e) + "/E:F/RL:OF/RC:C")
+		add(v.Canonical(full) + "/")
 	}
 	base := v.Canonical(full)
-	for i := 0; len(out) < 40 && i < 400; i++ {
+	for i := 0; len(out) < 44 && i < 400; i++ {
 		m, _ := gen.Mutate(r, v, base)
 		add(m)
 	}
